@@ -17,7 +17,7 @@ func init() {
 		Decided: "(b) the closing notice is the stream's own sequenced frame, flagged before the send, sent through the same encode-and-send helper with the write mutex held; (c) the receiver reports the close only for the in-turn frame (C02.R5); " +
 			"(d) every close of a stream closes its receive buffer right after winning the closed flag — before any operation that can fail or return — and both buffer implementations set closed and broadcast under their lock; session teardown does the same for every stream; " +
 			"(e) both pipes return end-of-stream only when closed AND drained and still serve buffered data after close; (f) end-of-stream is mapped to the broken-stream error, Write re-reads the closed flag under the write mutex before its first send, ReadFrom re-checks after its blocking read, a close verdict from the buffer triggers the passive close.",
-		NotDecided: "(a)/(g) the equality 'reader gets exactly B' and which prefix is read under simultaneous close — run-time values depending on schedules.",
+		NotDecided:  "(a)/(g) the equality 'reader gets exactly B' and which prefix is read under simultaneous close — run-time values depending on schedules.",
 		Assumptions: []string{"sync.Cond/Mutex semantics", "C02's in-turn rules hold (imported R2)"},
 	})
 }
